@@ -58,6 +58,19 @@ fn served_meta(b: &Built, p: &str) -> Option<Result<MetaOut, ErrClass>> {
     }
 }
 
+/// Some(true): the backend supports setting this field (the call must succeed on an existing
+/// entry); Some(false): it does not (must report not-supported); None: depends on the layer that
+/// holds the entry (overlays write time stamps to the upper layer only)
+fn support(spec: &crate::stack::Spec, f: TField) -> Option<bool> {
+    use crate::stack::Spec;
+    match spec {
+        Spec::Mem { .. } => Some(true),
+        Spec::Phys { .. } => Some(f != TField::Created),
+        Spec::Alt { inner, .. } => support(inner, f),
+        _ => None,
+    }
+}
+
 pub fn run_c19(cfg: &RunCfg, trace: bool) -> RunOut {
     let mut cx = match SeqCtx::new(cfg, trace) {
         Ok(c) => c,
@@ -107,6 +120,17 @@ pub fn run_c19(cfg: &RunCfg, trace: bool) -> RunOut {
             let b1 = bytes_of(&cx.built[0], &target);
             let fi = field_idx(*f);
             let value = crate::ops::to_nanos(crate::ops::from_parts(*secs, *nanos));
+            if before.m[0].exists(&target) {
+                match (support(&cfg.specs[0], *f), &got) {
+                    (Some(true), Res::Err(e)) => {
+                        fail!(format!("supported-setter-failed:{:?}", e.class), format!("the backend supports setting {:?}, the entry exists, yet the call failed: {}", f, e.display));
+                    }
+                    (Some(false), other) if !matches!(other, Res::Err(e) if e.class == ErrClass::NotSupported) => {
+                        fail!(format!("unsupported-setter:{}", other.class()), format!("the backend does not support setting {:?}: must report not-supported, got {}", f, short(other)));
+                    }
+                    _ => {}
+                }
+            }
             match &got {
                 Res::Ok(_) => {
                     setters_ok += 1;
